@@ -54,6 +54,7 @@ import (
 	"google.golang.org/protobuf/types/known/anypb"
 
 	"verif/sim"
+	"verif/sim/hook"
 )
 
 // ---------------------------------------------------------------------------
@@ -1499,7 +1500,24 @@ func (w *c12World) deliver(st *c12Station, o *c12Outcome) bool {
 // ---------------------------------------------------------------------------
 // scenario
 
+// c12Scenario runs the (single-threaded) scenario as one task of a scheduler, so that the
+// registrar's locks are emulated: a lock left held on some path is a deadlock verdict, not a hang.
 func c12Scenario(r *sim.Run) {
+	s := hook.Install(r.Tape)
+	defer s.Uninstall()
+	finished := false
+	s.Spawn("director", func() {
+		c12Body(r)
+		finished = true
+	})
+	st := sim.Drive(r, s, sim.DriveOpt{Horizon: 100000 * time.Hour, MaxSteps: 1000000, Until: func() bool { return finished }})
+	defer s.Finish()
+	if st == sim.Deadlock || (st != sim.Done && st != sim.AllExited && st != sim.Failed && !finished) {
+		r.Fail("C12/deadlock", "the registrar blocked for ever (%v): %s", st, s.WaitForGraph())
+	}
+}
+
+func c12Body(r *sim.Run) {
 	tp := r.Tape
 	if tp.Prob("statistical", 1, c12StatDen) {
 		c12Statistical(r)
